@@ -281,11 +281,13 @@ def _run_case(case, exec_seed=None, exec_tape=None):
             inputs = build_inputs(w)
             sim = state["sim"]
             executor, parallel = C.make_executor(sim, cfg["executor"])
+            truth["inputs"] = {k: canon(v) for k, v in inputs.items()}  # what the caller gave, recorded BEFORE the call
             res = p.map(inputs, run_folder=F(cfg.get("run_via")), parallel=parallel, executor=executor,
                         storage=C.storage_arg(cfg["storage"]), persist_memory=True,
                         cleanup=cfg.get("pre", "none") in ("none", "complete-other"), **map_kwargs(w))
             truth["R"] = {o: canon(res[o].output) for o in all_outputs(w)}
-            truth["inputs"] = {k: canon(v) for k, v in inputs.items()}
+            if {k: canon(v) for k, v in inputs.items()} != truth["inputs"]:
+                V("run_info", "map-changed-the-callers-inputs", {"now": repr(inputs)[:300]})
             truth["defaults"] = {k: canon(v) for k, v in p.defaults.items()}
             truth["run_info"] = _expected_run_info(w, cfg, p, None)
             # same-process xarray baseline (relative oracle for the xarray loader)
@@ -350,7 +352,7 @@ def _run_case(case, exec_seed=None, exec_tape=None):
                 for field in ("all_output_names", "mapspecs_as_strings", "storage", "internal_shapes", "shapes", "shape_masks"):
                     g = getattr(ri, field)
                     if field == "internal_shapes" and g is not None:
-                        g = {k: (tuple(v) if isinstance(v, (list, tuple)) else (v,)) for k, v in g.items()}
+                        g = {k: (tuple(v) if isinstance(v, list) else v) for k, v in g.items()}  # as given: an int stays an int
                     if field in ("shapes", "shape_masks"):
                         g = {k: tuple(v) for k, v in g.items()}
                     if g != exp[field]:
